@@ -290,3 +290,183 @@ Section UpdateIsIterated.
     rewrite XFUEL_S, exec_S. cbn [body]. eapply update_body_inplace; eauto.
   Qed.
 End UpdateIsIterated.
+
+(* ------------------------------------------------------------------ *)
+(** * Records: instance dictionaries and sorted abstract field lists as finite maps *)
+
+Section Records.
+  Context {V : Type}.
+  Notation kv := (nat * V)%type.
+  Notation key := (fun p : kv => Z.of_nat (fst p)).
+
+  (* strictly increasing keys *)
+  Fixpoint ssorted (l : list kv) : Prop :=
+    match l with
+    | [] => True
+    | p :: t => (forall q, In q t -> fst p < fst q) /\ ssorted t
+    end.
+
+  Lemma assoc_cons k (p : kv) l : assoc k (p :: l) = if fst p =? k then Some (snd p) else assoc k l.
+  Proof. unfold assoc. simpl. destruct (fst p =? k); reflexivity. Qed.
+
+  Lemma assoc_none_notin k (l : list kv) : assoc k l = None <-> ~ In k (map fst l).
+  Proof.
+    induction l as [|p l IH]; simpl; [rewrite (eq_refl : assoc k [] = None); tauto|].
+    rewrite assoc_cons. destruct (fst p =? k) eqn:E.
+    - apply Nat.eqb_eq in E. split; [discriminate|]. intro H. exfalso. apply H. auto.
+    - apply Nat.eqb_neq in E. rewrite IH. tauto.
+  Qed.
+
+  Lemma assoc_in k v (l : list kv) : assoc k l = Some v -> In (k, v) l.
+  Proof.
+    induction l as [|[a w] l IH]; [discriminate|]. rewrite assoc_cons. simpl.
+    destruct (a =? k) eqn:E; [apply Nat.eqb_eq in E; intro H; inversion H; subst; auto|auto].
+  Qed.
+
+  Lemma ssorted_head_notin p l : ssorted (p :: l) -> assoc (fst p) l = None.
+  Proof.
+    intros [H _]. apply assoc_none_notin. intro Hin. apply in_map_iff in Hin.
+    destruct Hin as [q [E Hq]]. specialize (H q Hq). lia.
+  Qed.
+
+  (* a strictly sorted list is determined by its lookups *)
+  Lemma ssorted_ext (l1 l2 : list kv) :
+    ssorted l1 -> ssorted l2 -> (forall k, assoc k l1 = assoc k l2) -> l1 = l2.
+  Proof.
+    revert l2. induction l1 as [|[a v] l1 IH]; intros [|[b w] l2] S1 S2 H.
+    - reflexivity.
+    - specialize (H b). rewrite assoc_cons in H. simpl in H. rewrite Nat.eqb_refl in H. discriminate.
+    - specialize (H a). rewrite assoc_cons in H. simpl in H. rewrite Nat.eqb_refl in H. discriminate.
+    - assert (a = b).
+      { destruct (Nat.lt_trichotomy a b) as [L|[E|L]]; auto; exfalso.
+        - pose proof (H a) as Ha. rewrite !assoc_cons in Ha. simpl in Ha. rewrite Nat.eqb_refl in Ha.
+          destruct (b =? a) eqn:E; [apply Nat.eqb_eq in E; lia|].
+          symmetry in Ha. apply assoc_in in Ha. destruct S2 as [S2 _]. specialize (S2 _ Ha). simpl in S2. lia.
+        - pose proof (H b) as Hb. rewrite !assoc_cons in Hb. simpl in Hb. rewrite Nat.eqb_refl in Hb.
+          destruct (a =? b) eqn:E; [apply Nat.eqb_eq in E; lia|].
+          apply assoc_in in Hb. destruct S1 as [S1 _]. specialize (S1 _ Hb). simpl in S1. lia. }
+      subst b.
+      pose proof (H a) as Ha. rewrite !assoc_cons in Ha. simpl in Ha. rewrite Nat.eqb_refl in Ha.
+      inversion Ha; subst w. f_equal.
+      apply IH; [apply S1|apply S2|].
+      intro k. specialize (H k). rewrite !assoc_cons in H. simpl in H.
+      destruct (a =? k) eqn:E; auto. apply Nat.eqb_eq in E. subst k.
+      pose proof (ssorted_head_notin (a, v) l1 S1) as N1. pose proof (ssorted_head_notin (a, v) l2 S2) as N2.
+      simpl in N1, N2. rewrite N1, N2. reflexivity.
+  Qed.
+
+  (* insertion sort *)
+  Lemma assoc_insert_by k (x : kv) l :
+    ~ In (fst x) (map fst l) ->
+    assoc k (insert_by key x l) = if fst x =? k then Some (snd x) else assoc k l.
+  Proof.
+    induction l as [|y l IH]; intro Hn; simpl.
+    - rewrite assoc_cons. reflexivity.
+    - destruct (Z.of_nat (fst x) <=? Z.of_nat (fst y))%Z.
+      + rewrite assoc_cons. reflexivity.
+      + rewrite !assoc_cons, IH.
+        * destruct (fst y =? k) eqn:E1; destruct (fst x =? k) eqn:E2; auto.
+          apply Nat.eqb_eq in E1. apply Nat.eqb_eq in E2. exfalso. apply Hn. simpl. left. congruence.
+        * intro Hin. apply Hn. simpl. auto.
+  Qed.
+
+  Lemma keys_insert_by (x : kv) l y : In y (map fst (insert_by key x l)) <-> y = fst x \/ In y (map fst l).
+  Proof.
+    rewrite !in_map_iff. split.
+    - intros [q [E Hq]]. apply In_insert_by in Hq. destruct Hq as [->|Hq]; [auto|right; exists q; auto].
+    - intros [->|[q [E Hq]]]; [exists x; split; auto; apply In_insert_by; auto|].
+      exists q. split; auto. apply In_insert_by; auto.
+  Qed.
+
+  Lemma ssorted_insert_by (x : kv) l :
+    ssorted l -> ~ In (fst x) (map fst l) -> ssorted (insert_by key x l).
+  Proof.
+    induction l as [|y l IH]; intros S Hn; simpl.
+    - split; [intros q []|exact I].
+    - destruct S as [Sy S]. destruct (Z.of_nat (fst x) <=? Z.of_nat (fst y))%Z eqn:E.
+      + apply Z.leb_le in E. split; [|split; auto].
+        intros q [<-|Hq].
+        * assert (fst x <> fst y) by (intro F; apply Hn; simpl; auto). lia.
+        * specialize (Sy q Hq). lia.
+      + apply Z.leb_gt in E. split.
+        * intros q Hq. apply In_insert_by in Hq. destruct Hq as [->|Hq]; [lia|auto].
+        * apply IH; auto. intro Hin. apply Hn. simpl. auto.
+  Qed.
+
+  Lemma sort_by_props (l : list kv) : NoDup (map fst l) ->
+    ssorted (sort_by key l) /\ (forall k, assoc k (sort_by key l) = assoc k l) /\
+    (forall y, In y (map fst (sort_by key l)) <-> In y (map fst l)).
+  Proof.
+    induction l as [|x l IH]; intro Hd; simpl.
+    - split; [exact I|]. split; [reflexivity|tauto].
+    - inversion Hd as [|? ? Hx Hd']; subst. destruct (IH Hd') as [S [A K]].
+      assert (Hn : ~ In (fst x) (map fst (sort_by key l))) by (rewrite K; exact Hx).
+      split; [apply ssorted_insert_by; auto|]. split.
+      + intro k. rewrite assoc_insert_by by exact Hn. rewrite assoc_cons, A. reflexivity.
+      + intro y. rewrite keys_insert_by, K. simpl. intuition.
+  Qed.
+
+  (* assoc_set on an instance dictionary *)
+  Lemma assoc_app k (l1 l2 : list kv) :
+    assoc k (l1 ++ l2) = match assoc k l1 with Some x => Some x | None => assoc k l2 end.
+  Proof.
+    induction l1 as [|p l1 IH]; [reflexivity|]. simpl. rewrite !assoc_cons.
+    destruct (fst p =? k); auto.
+  Qed.
+
+  Lemma existsb_key_assoc a (l : list kv) :
+    existsb (fun p => fst p =? a) l = match assoc a l with Some _ => true | None => false end.
+  Proof.
+    induction l as [|p l IH]; [reflexivity|]. simpl. rewrite assoc_cons.
+    destruct (fst p =? a); simpl; auto.
+  Qed.
+
+  Lemma assoc_assoc_set k a v (l : list kv) :
+    assoc k (assoc_set a v l) = if a =? k then Some v else assoc k l.
+  Proof.
+    unfold assoc_set. rewrite existsb_key_assoc.
+    destruct (assoc a l) as [w|] eqn:E.
+    - induction l as [|p l IH]; [discriminate|]. simpl. rewrite assoc_cons in E.
+      destruct (fst p =? a) eqn:F.
+      + rewrite !assoc_cons. simpl. apply Nat.eqb_eq in F. rewrite F.
+        destruct (a =? k) eqn:G; auto.
+        (* the rest of the list is mapped too, but is looked up only for other keys *)
+        clear IH E. induction l as [|q l IH]; [reflexivity|]. simpl. rewrite !assoc_cons.
+        destruct (fst q =? a) eqn:H; simpl.
+        * rewrite G. apply Nat.eqb_eq in H. rewrite H, G. exact IH.
+        * destruct (fst q =? k); auto.
+      + rewrite !assoc_cons. destruct (fst p =? k) eqn:G.
+        * destruct (a =? k) eqn:H; auto. apply Nat.eqb_eq in G. apply Nat.eqb_eq in H.
+          apply Nat.eqb_neq in F. congruence.
+        * apply IH. exact E.
+    - rewrite assoc_app, assoc_cons. simpl.
+      destruct (a =? k) eqn:G.
+      + apply Nat.eqb_eq in G. subst k. rewrite E. reflexivity.
+      + destruct (assoc k l); reflexivity.
+  Qed.
+
+  Lemma keys_assoc_set a v (l : list kv) y :
+    In y (map fst (assoc_set a v l)) <-> y = a \/ In y (map fst l).
+  Proof.
+    unfold assoc_set. rewrite existsb_key_assoc. destruct (assoc a l) as [w|] eqn:E.
+    - rewrite map_map.
+      assert (map (fun x : kv => fst (if fst x =? a then (a, v) else x)) l = map fst l) as ->.
+      { apply map_ext. intro p. destruct (fst p =? a) eqn:F; auto. apply Nat.eqb_eq in F. auto. }
+      split; auto. intros [->|H]; auto. apply assoc_in in E. apply in_map_iff. exists (a, w). auto.
+    - rewrite map_app, in_app_iff. simpl. intuition.
+  Qed.
+
+  Lemma nodup_assoc_set a v (l : list kv) : NoDup (map fst l) -> NoDup (map fst (assoc_set a v l)).
+  Proof.
+    intro H. unfold assoc_set. rewrite existsb_key_assoc. destruct (assoc a l) as [w|] eqn:E.
+    - rewrite map_map.
+      assert (map (fun x : kv => fst (if fst x =? a then (a, v) else x)) l = map fst l) as ->; auto.
+      apply map_ext. intro p. destruct (fst p =? a) eqn:F; auto. apply Nat.eqb_eq in F. auto.
+    - rewrite map_app. simpl. apply assoc_none_notin in E. revert E H.
+      generalize (map fst l). intros ks E H. induction H as [|x ks Hx H IH]; simpl.
+      + constructor; [intros []|constructor].
+      + constructor.
+        * rewrite in_app_iff. simpl. intros [F|[F|[]]]; [auto|]. apply E. simpl. auto.
+        * apply IH. intro F. apply E. simpl. auto.
+  Qed.
+End Records.
